@@ -31,7 +31,7 @@ COMPONENTS = {
     "stub_or_harness": ["history generator", "WriterModel reference model"],
 }
 PROBES = [
-    "same_string_in_both_modes", "argument_of_a_subclass_type", "generated_enum_width_overrides", "generated_serializer_after_chunked", "generated_plain_struct_in_both_modes", "second_writer_interleaved", "refusal_on_nonempty_buffer", "refusal_right_after_mode_toggle", "perfect_fit_padded",
+    "same_string_in_both_modes", "argument_of_a_subclass_type", "caller_mode_on_around_generated_code", "generated_enum_width_overrides", "generated_serializer_after_chunked", "generated_plain_struct_in_both_modes", "second_writer_interleaved", "refusal_on_nonempty_buffer", "refusal_right_after_mode_toggle", "perfect_fit_padded",
     "y_diaeresis_sanitized", "y_diaeresis_unsanitized", "to_bytearray_is_copy", "refusal_far_beyond_limit",
     "refusal_string_one_too_long", "refusal_string_one_too_short",
 ]
@@ -144,6 +144,42 @@ def run_generated(plan, env, res, tr):
             return {"kind": "appended-bytes", "signature": f"C09|appended-bytes|generated-serializer|sanitize={mode}",
                     "detail": f"InnerPlain(a={a3!r}).serialize into a writer with sanitisation {'on' if mode else 'off'} wrote "
                               f"{got.hex()}, the declaration prescribes {expect.hex()}", "step": 0}
+    # the caller switched sanitisation on; generated code uses the writer in between (a structure with a <chunked>
+    # section but no string of its own; a packet whose write() fails part-way); a string written afterwards is
+    # still sanitised, because that is what the caller asked for
+    srv = importlib.import_module("eolib.protocol._generated.net.server")
+    for what in ("stringless-chunked-struct", "failed-packet-write"):
+        w = EoWriter()
+        w.string_sanitization_mode = True
+        w.add_string("a\u00ff")
+        m = WriterModel()
+        m.sanitize = True
+        expect = m.image("add_string", ["a\u00ff"])
+        if what == "stringless-chunked-struct":
+            net.Pair.serialize(w, net.Pair(id=g["flag"], amount=7))
+            expect += m.image("add_char", [g["flag"]]) + m.image("add_short", [7]) + b"\xff"
+        else:
+            bad = srv.TalkPairsServerPacket(tag=300 + g["flag"], pairs=[])       # a char cannot carry it
+            try:
+                bad.write(w)
+                failed = False
+            except Exception:  # noqa
+                failed = True
+            if not failed:
+                return {"kind": "not-refused", "signature": "C09|not-refused|generated-serializer|sanitize=True",
+                        "detail": "TalkPairsServerPacket(tag>=253).write() did not fail", "step": 0}
+            expect = None                 # whatever the failed write left behind is not judged here
+        w.add_string("\u00ffz")
+        tail = m.image("add_string", ["\u00ffz"])
+        got = bytes(w.to_bytearray())
+        res.count("probe.caller_mode_on_around_generated_code")
+        tr.ev("generated-around", what, got.hex())
+        ok = (got == expect + tail) if expect is not None else got.endswith(tail)
+        expect = (expect + tail) if expect is not None else b"..." + tail
+        if not ok or not w.string_sanitization_mode:
+            return {"kind": "appended-bytes", "signature": "C09|appended-bytes|generated-serializer|sanitize=True",
+                    "detail": f"sanitisation switched on by the caller, then {what}, then add_string('\u00ffz'): the writer holds {got.hex()} "
+                              f"(mode now {bool(w.string_sanitization_mode)}), asked for was {expect.hex()} with the mode still on", "step": 0}
     # one enum referred to with and without an underlying-type override: each field is written with ITS width
     ks = [g["flag"] % 253, (g["flag"] * 251) % 64009, (g["flag"] * 64007 + 5) % (253 ** 3), (g["flag"] // 3) % 253]
     wd = net.Widths(k1=net.Kind(ks[0]), k2=net.Kind(ks[1]), k3=net.Kind(ks[2]), k4=net.Kind(ks[3]))
